@@ -150,6 +150,44 @@ theorem entry_eq_of_labelsOK {h : GoMap} (hok : LabelsOK h) {a b : GoVal × GoVa
         exact absurd hn.symm ((labelDistinct_iff_ne hx).mp (hd a ha1))
       · exact ih hok' ha1 hb1
 
+/-! ### `Forall₂` (core Lean has no `List.Forall₂`; this is the usual definition) -/
+
+/-- the two lists have the same length and are related element-wise -/
+inductive Forall₂ {α β : Type} (R : α → β → Prop) : List α → List β → Prop
+  | nil : Forall₂ R [] []
+  | cons {a : α} {b : β} {l : List α} {l' : List β} :
+      R a b → Forall₂ R l l' → Forall₂ R (a :: l) (b :: l')
+
+theorem Forall₂.map_eq {α β γ : Type} {R : α → β → Prop} {f : α → γ} {g : β → γ}
+    {l : List α} {l' : List β} (h : Forall₂ R l l') (hfg : ∀ a b, R a b → f a = g b) :
+    l.map f = l'.map g := by
+  induction h with
+  | nil => rfl
+  | cons hab _ ih => rw [List.map_cons, List.map_cons, hfg _ _ hab, ih]
+
+theorem Forall₂.length_eq {α β : Type} {R : α → β → Prop} {l : List α} {l' : List β}
+    (h : Forall₂ R l l') : l.length = l'.length := by
+  induction h with
+  | nil => rfl
+  | cons _ _ ih => simp [ih]
+
+/-- transfer a property of all elements along an element-wise relation -/
+theorem Forall₂.forall_iff {α β : Type} {R : α → β → Prop} {P : α → Prop} {Q : β → Prop}
+    {l : List α} {l' : List β} (h : Forall₂ R l l')
+    (hpq : ∀ a ∈ l, ∀ b ∈ l', R a b → (P a ↔ Q b)) :
+    (∀ a ∈ l, P a) ↔ (∀ b ∈ l', Q b) := by
+  induction h with
+  | nil => simp
+  | @cons a b l l' hab _ ih =>
+    simp only [List.mem_cons, forall_eq_or_imp]
+    have h1 := hpq a (List.mem_cons_self ..) b (List.mem_cons_self ..) hab
+    have h2 := ih (fun x hx y hy => hpq x (List.mem_cons_of_mem _ hx) y (List.mem_cons_of_mem _ hy))
+    rw [h1, h2]
+
+theorem Forall₂.refl {α : Type} {R : α → α → Prop} (hr : ∀ a, R a a) : ∀ l, Forall₂ R l l
+  | [] => .nil
+  | a :: l => .cons (hr a) (Forall₂.refl hr l)
+
 end CoseModel
 
 open CoseModel
@@ -354,6 +392,176 @@ theorem validate_perm_invariant (h h' : GoMap) (hp : h.Perm h') (prot : Bool) :
     | true =>
       have := validate_perm_imp h' h hp.symm prot hv'
       rw [hv] at this; cases this
+
+/-! ### 6 : spelling invariance -/
+
+/-- `hasLabel` at an int / tstr label only looks at normalised labels.
+    (For a label that does not normalise the statement is false: see
+    `hasLabel_norm_counterexample`.) -/
+theorem hasLabel_norm' (h : GoMap) (l n : GoVal) (hn : normalizeLabel l = some n) :
+    hasLabel h l = true ↔ ∃ e ∈ h, normalizeLabel e.1 = some n := by
+  have hl : normalizeLabel l ≠ none := by rw [hn]; simp
+  unfold hasLabel lookupLabel
+  cases hlk : h.lookup l with
+  | some v =>
+    simp only [Option.isSome_some, true_iff]
+    unfold GoMap.lookup at hlk
+    cases hf : h.find? (fun e => e.1.keyEq l) with
+    | none => rw [hf] at hlk; cases hlk
+    | some e =>
+      have he := List.mem_of_find?_eq_some hf
+      have hk : e.1.keyEq l = true := List.find?_some hf
+      have := eq_of_keyEq_of_normalizes' hl hk
+      exact ⟨e, he, by rw [this, hn]⟩
+  | none =>
+    simp only [hn]
+    have hsome : ∀ o : Option (GoVal × GoVal),
+        (match o with | some e => some e.2 | none => none).isSome = o.isSome := by
+      intro o; cases o <;> rfl
+    rw [hsome, List.find?_isSome]
+    constructor
+    · rintro ⟨e, he, hp⟩
+      refine ⟨e, he, ?_⟩
+      cases hne : normalizeLabel e.1 with
+      | none => simp [hne] at hp
+      | some g =>
+        simp only [hne] at hp
+        rw [(keyEq_normalize_iff hne hn).mp hp]
+    · rintro ⟨e, he, hne⟩
+      refine ⟨e, he, ?_⟩
+      simp only [hne]
+      exact (keyEq_normalize_iff hne hn).mpr rfl
+
+theorem hasLabel_norm (h : GoMap) (l : GoVal) (hl : normalizeLabel l ≠ none) :
+    hasLabel h l = true ↔
+      ∃ e ∈ h, ∃ n, normalizeLabel e.1 = some n ∧ normalizeLabel l = some n := by
+  cases hn : normalizeLabel l with
+  | none => exact absurd hn hl
+  | some n =>
+    rw [hasLabel_norm' h l n hn]
+    constructor
+    · rintro ⟨e, he, h1⟩; exact ⟨e, he, n, h1, rfl⟩
+    · rintro ⟨e, he, n', h1, h2⟩
+      cases h2; exact ⟨e, he, h1⟩
+
+/-- without `normalizeLabel l ≠ none` the characterisation fails: the exact-key lookup finds a
+    `bool` key although it has no normal form -/
+theorem hasLabel_norm_counterexample :
+    hasLabel [(.bool true, .nil)] (.bool true) = true ∧
+    ¬ ∃ e ∈ ([(.bool true, .nil)] : GoMap), ∃ n,
+        normalizeLabel e.1 = some n ∧ normalizeLabel (.bool true) = some n := by
+  refine ⟨rfl, ?_⟩
+  rintro ⟨e, _, n, _, h2⟩
+  simp [normalizeLabel] at h2
+
+/-- `hasLabel` depends only on the normalised labels of the bucket and of the label -/
+theorem hasLabel_congr_norm (h h' : GoMap) (hn : normLabels h = normLabels h') (l l' : GoVal)
+    (hl : normalizeLabel l = normalizeLabel l') (hs : normalizeLabel l ≠ none) :
+    hasLabel h l = hasLabel h' l' := by
+  cases hn' : normalizeLabel l with
+  | none => exact absurd hn' hs
+  | some n =>
+    have hmem : ∀ m : GoMap, (∃ e ∈ m, normalizeLabel e.1 = some n) ↔ some n ∈ normLabels m := by
+      intro m
+      unfold normLabels
+      rw [List.mem_map]
+      constructor
+      · rintro ⟨e, he, h1⟩; exact ⟨e, he, h1⟩
+      · rintro ⟨e, he, h1⟩; exact ⟨e, he, h1⟩
+    have h1 := hasLabel_norm' h l n hn'
+    have h2 := hasLabel_norm' h' l' n (by rw [← hl, hn'])
+    rw [hmem] at h1 h2
+    rw [← hn] at h2
+    cases ha : hasLabel h l <;> cases hb : hasLabel h' l' <;> simp_all
+
+/-- same entries in the same order, labels possibly spelt with another Go integer type -/
+def respell (h h' : GoMap) : Prop :=
+  Forall₂ (fun e e' => normalizeLabel e.1 = normalizeLabel e'.1 ∧ e.2 = e'.2) h h'
+
+/-- the value of a `crit` parameter, its labels possibly re-spelt -/
+def critRel (v v' : GoVal) : Prop :=
+  ∃ ls ls', v = .arr ls ∧ v' = .arr ls' ∧
+    Forall₂ (fun a b => normalizeLabel a = normalizeLabel b) ls ls'
+
+/-- like `respell`, and additionally the labels listed in the value of `crit` may be re-spelt -/
+def respellCrit (h h' : GoMap) : Prop :=
+  Forall₂ (fun e e' => normalizeLabel e.1 = normalizeLabel e'.1 ∧
+    (e.2 = e'.2 ∨ (normalizeLabel e.1 = some (.int .i64 2) ∧ critRel e.2 e'.2))) h h'
+
+theorem respell.toCrit {h h' : GoMap} (hr : respell h h') : respellCrit h h' := by
+  induction hr with
+  | nil => exact .nil
+  | cons hab _ ih => exact .cons ⟨hab.1, Or.inl hab.2⟩ ih
+
+theorem respellCrit.normLabels_eq {h h' : GoMap} (hr : respellCrit h h') :
+    normLabels h = normLabels h' :=
+  Forall₂.map_eq hr (fun _ _ hab => hab.1)
+
+theorem canLabel_eq_isSome (l : GoVal) : (canInt l || canTstr l) = (normalizeLabel l).isSome := by
+  cases l <;> rfl
+
+theorem ensureCritical_critRel (h h' : GoMap) (hn : normLabels h = normLabels h') (v v' : GoVal)
+    (hv : critRel v v') : ensureCritical v h = ensureCritical v' h' := by
+  obtain ⟨ls, ls', rfl, rfl, hf⟩ := hv
+  unfold ensureCritical
+  simp only
+  have hall : ls.all (fun l => (canInt l || canTstr l) && hasLabel h l)
+      = ls'.all (fun l => (canInt l || canTstr l) && hasLabel h' l) := by
+    induction hf with
+    | nil => rfl
+    | @cons a b l l' hab _ ih =>
+      rw [List.all_cons, List.all_cons, ih]
+      congr 1
+      rw [canLabel_eq_isSome, canLabel_eq_isSome, ← hab]
+      cases hna : normalizeLabel a with
+      | none => rfl
+      | some n =>
+        rw [hasLabel_congr_norm h h' hn a b hab (by rw [hna]; simp)]
+  have hemp : ls.isEmpty = ls'.isEmpty := by
+    cases hf <;> rfl
+  rw [hall, hemp]
+
+/-- general form: also the labels inside the `crit` value may change spelling -/
+theorem spelling_invariance_crit (h h' : GoMap) (hr : respellCrit h h') (prot : Bool) :
+    validateHeaderParameters h prot = validateHeaderParameters h' prot := by
+  have hn := hr.normLabels_eq
+  have hhas : ∀ l, normalizeLabel l ≠ none → hasLabel h l = hasLabel h' l :=
+    fun l hl => hasLabel_congr_norm h h' hn l l rfl hl
+  have hiff : validateHeaderParameters h prot = true ↔ validateHeaderParameters h' prot = true := by
+    rw [validate_iff, validate_iff, labelsOK_iff_normLabels, labelsOK_iff_normLabels, hn]
+    refine and_congr Iff.rfl ?_
+    apply Forall₂.forall_iff hr
+    intro e _ e' _ ⟨hlab, hval⟩
+    rw [← hlab]
+    rcases hval with hval | ⟨h2, hcr⟩
+    · rw [← hval]
+      constructor
+      · rintro ⟨l, h1, hc⟩; exact ⟨l, h1, by rw [← checkParam_congr h h' hhas]; exact hc⟩
+      · rintro ⟨l, h1, hc⟩; exact ⟨l, h1, by rw [checkParam_congr h h' hhas]; exact hc⟩
+    · have hc2 : checkParam h prot (.int .i64 2) e.2 = checkParam h' prot (.int .i64 2) e'.2 := by
+        simp only [checkParam]
+        rw [ensureCritical_critRel h h' hn _ _ hcr]
+      constructor
+      · rintro ⟨l, h1, hc⟩
+        rw [h2] at h1; cases h1
+        exact ⟨_, h2, by rw [← hc2]; exact hc⟩
+      · rintro ⟨l, h1, hc⟩
+        rw [h2] at h1; cases h1
+        exact ⟨_, h2, by rw [hc2]; exact hc⟩
+  cases ha : validateHeaderParameters h prot <;> cases hb : validateHeaderParameters h' prot <;>
+    simp_all
+
+/-- 6 (stronger than asked: no hypothesis about `crit` is needed, because `ensureCritical`
+    consults the bucket through `hasLabel`, which only looks at normalised labels) -/
+theorem spelling_invariance_strong (h h' : GoMap) (hr : respell h h') (prot : Bool) :
+    validateHeaderParameters h prot = validateHeaderParameters h' prot :=
+  spelling_invariance_crit h h' hr.toCrit prot
+
+/-- 6, as stated -/
+theorem spelling_invariance (h h' : GoMap) (hr : respell h h') (prot : Bool)
+    (_hcrit : ∀ e ∈ h, normalizeLabel e.1 ≠ some (.int .i64 2)) :
+    validateHeaderParameters h prot = validateHeaderParameters h' prot :=
+  spelling_invariance_strong h h' hr prot
 
 end C13
 
